@@ -548,7 +548,26 @@ func (c *ctx) inversion() {
 							conds := 0
 							for _, cd := range fc.par.Known(call, cc) {
 								if is, ok := cd.At.(*ast.IfStmt); ok && fc.par.Within(call, is) {
-									conds++
+									// `if <is the cff tag> { *exp = ... } else { recurse }`: the path that skips the
+									// recursion replaces the node instead
+									var other ast.Node
+									switch {
+									case fc.par.Within(call, is.Body) && is.Else != nil:
+										other = is.Else
+									case is.Else != nil && fc.par.Within(call, is.Else):
+										other = is.Body
+									}
+									replaces := false
+									if other != nil {
+										astx.Writes(other, func(l ast.Expr, at ast.Node) {
+											if s, ok := astx.Unparen(l).(*ast.StarExpr); ok && astx.IdentObj(info, s.X) == param {
+												replaces = true
+											}
+										})
+									}
+									if !replaces {
+										conds++
+									}
 								}
 							}
 							if !shortCircuited && conds == 0 {
